@@ -69,7 +69,8 @@ def evaluate(src, ident, tier, keep, props=None):
             rc, diff = sh(['git', 'diff'], cwd=wt)
             with open(os.path.join(dst, 'patch.diff'), 'w') as f:
                 f.write(diff)
-            shutil.copy(demo, os.path.join(dst, 'demo.py'))
+            if os.path.abspath(demo) != os.path.abspath(os.path.join(dst, 'demo.py')):
+                shutil.copy(demo, os.path.join(dst, 'demo.py'))
             try:
                 meta = json.load(open(os.path.join(d, 'meta.json')))
             except Exception:
